@@ -178,6 +178,38 @@ def mutate_wire(S, ws, rng):
     return ws, "none"
 
 
+# ------------------------------------------------------------------------------- back-references to a still-open tuple
+PEND_ELEMS = [["py", "str"], ["text", 3, 0], ["py", "bool"], ["bool", True], ["none"], ["list", ["py", "int"], None, 0],
+              ["list", ["py", "str"], 2, 0], ["tuple", [["py", "int"], ["py", "int"]]], ["tuple", []],
+              ["dict", ["py", "bytes"], ["py", "int"], None], ["set", ["py", "int"], None, None], ["py", "int"], ["py", "bytes"],
+              ["number", None], ["any"], ["choice", [["py", "int"], ["py", "bytes"]]]]
+
+
+def pend_case(S, rng, elem=None, shape=None):
+    """-> (constraint spec, wire spec): a tuple that, one or two mutable containers down, holds a back-reference to
+    ITSELF (it is still open when the reference arrives: the receiver only has a Deferred for it) in a slot declared elem"""
+    elem = elem or list(rng.choice(PEND_ELEMS))
+    shape = shape or rng.choice(["list", "list", "dict", "list2", "tuple-list", "tuple-list-inner"])
+    pre = [S.slice_vs(S.canon_vs(ascii_only(S.gen_value(elem, rng)))) for _ in range(rng.randint(0, 2))]
+    if shape == "list":
+        return ["tuple", [["list", elem, None, 0]]], ["wo", "tuple", [["wo", "list", pre + [["wp", 1]]]]]
+    if shape == "dict":
+        return (["tuple", [["dict", ["py", "bytes"], elem, None]]],
+                ["wo", "tuple", [["wo", "dict", [["ws", False, 1, [107]], ["wp", 1]]]]])
+    if shape == "list2":
+        return (["tuple", [["py", "int"], ["list", ["list", elem, None, 0], None, 0]]],
+                ["wo", "tuple", [["wi", "INT", 3, 3], ["wo", "list", [["wo", "list", pre + [["wp", 2]]]]]]])
+    if shape == "tuple-list":        # reference to the OUTER of two nested tuples
+        return (["tuple", [["tuple", [["list", elem, None, 0]]]]],
+                ["wo", "tuple", [["wo", "tuple", [["wo", "list", pre + [["wp", 2]]]]]]])
+    return (["tuple", [["tuple", [["list", elem, None, 0]]]]],          # ... to the INNER one
+            ["wo", "tuple", [["wo", "tuple", [["wo", "list", pre + [["wp", 1]]]]]]])
+
+
+def has_pend(ws):
+    return ws[0] == "wp" or (ws[0] == "wo" and any(has_pend(x) for x in ws[2]))
+
+
 # --------------------------------------------------------------------------------------------------------------- calls
 def classify_dead(ctx, w, family, case, what):
     errs = w.recv_errors
@@ -287,6 +319,9 @@ def call_cases(ctx, S, E):
         recs.append(r)
     for tag, argspec, pos, kws in FIXED_CALLS:
         recs.append(guarded(ctx, run_call, S, E, tag, "fixed", argspec, pos, kws))
+    for elem in PEND_ELEMS:
+        cs, ws = pend_case(S, rng, elem, "list")
+        recs.append(guarded(ctx, run_call, S, E, "pend-sweep", "pend", [("a", cs, False)], [ws], []))
     for i in range(ctx.n(330, 6000)):
         nargs = rng.choice([1, 1, 2, 2, 3])
         argspec = []
@@ -295,8 +330,13 @@ def call_cases(ctx, S, E):
             argspec.append((NAMES[j], cs, j > 0 and rng.random() < 0.3))
         vals = [S.canon_vs(ascii_only(S.gen_value(cs, rng))) for _, cs, _ in argspec]
         npos = rng.randint(0, nargs)
-        family = rng.choice(["none", "value", "value", "value", "wire", "wire", "missing", "extra", "duplicate", "unknown", "ref"])
+        family = rng.choice(["none", "value", "value", "value", "wire", "wire", "missing", "extra", "duplicate", "unknown", "ref",
+                             "pend"])
         j = rng.randrange(nargs)
+        if family == "pend":
+            cs, ws = pend_case(S, rng)
+            recs.append(guarded(ctx, run_call, S, E, "gen", "pend", [("a", cs, False)], [ws], []))
+            continue
         if family == "value":
             for _ in range(5):
                 try:
@@ -351,7 +391,14 @@ def run_answer(ctx, S, E, tag, family, cs, ws):
         rec["outcome"] = "callback"
         rec["value"] = S.canon(out[1])
         # THE PROPERTY: the value handed to the callback satisfies the result constraint in force
-        if not S.real_accepts(w.ms.getResponseConstraint(), out[1], True) or not S.py_satisfies(cs, out[1]):
+        conforms = S.real_accepts(w.ms.getResponseConstraint(), out[1], True) and S.py_satisfies(cs, out[1])
+        if not conforms and has_pend(ws):
+            # not D6: the stream is conforming except for ONE back-reference, and ReferenceUnslicer's checkObject is the
+            # check that exists for exactly that
+            ctx.fail("oracle/result-reference-unchecked", "an answer that puts a back-reference to its own still-open tuple "
+                     "into a slot of another declared shape was delivered: the callback received %r which violates the result "
+                     "constraint %r (answer stream %s)" % (rec["value"], cs, str(ws)[:400]), replay=case)
+        elif not conforms:
             ctx.fail("oracle/result-unchecked", "the callRemote callback received %r which violates the result constraint %r "
                      "(hand-built answer %s)" % (rec["value"], cs, str(ws)[:300]), replay=case)
     elif not w.alive():
@@ -380,10 +427,18 @@ def answer_cases(ctx, S, E):
         recs.append(r)
     for tag, cs, ws in FIXED_ANSWERS:
         recs.append(guarded(ctx, run_answer, S, E, tag, "fixed", cs, ws))
+    for elem in PEND_ELEMS:                          # every OPEN-accepting constraint kind (and a few that refuse OPEN)
+        for shape in ("list", "dict", "list2", "tuple-list", "tuple-list-inner"):
+            cs, ws = pend_case(S, rng, elem, shape)
+            recs.append(guarded(ctx, run_answer, S, E, "pend-sweep", "pend", cs, ws))
     for i in range(ctx.n(230, 4000)):
         cs = S.gen_cs(rng, rng.choice([0, 1, 2, 2]), opener_choice=False)
         v = S.canon_vs(ascii_only(S.gen_value(cs, rng)))
-        family = rng.choice(["none", "value", "value", "wire", "wire"])
+        family = rng.choice(["none", "value", "value", "wire", "wire", "pend"])
+        if family == "pend":
+            cs, ws = pend_case(S, rng)
+            recs.append(guarded(ctx, run_answer, S, E, "gen", "pend", cs, ws))
+            continue
         if family == "value":
             for _ in range(5):
                 try:
